@@ -23,7 +23,7 @@ META = {
              "statements and the injection site is nested (depth >= 1)"),
     "required": ["monitor:injection"] + [f"kind:{k}" for k in KINDS] + ["variant:case-index-negative", "variant:case-index-too-large",
                                                                          "variant:disagree-through-if-else",
-                                                                         "variant:exit-through-branch", "variant:foreign-wire-from-root", "variant:order-port-as-value",
+                                                                         "variant:exit-through-branch", "variant:foreign-wire-from-root", "variant:order-port-as-value", "variant:unfinished-function-with-declared-outputs",
                                                                          "feature:site-depth-0",
                                                                          "feature:site-depth-1",
                                                                          "feature:site-depth-2+"],
@@ -410,9 +410,11 @@ def make_interp(kind, site):
         def inj_func_no_outputs_serialize(self, where, st, fb=None, **kw):
             if where != "func":
                 return False
+            # (also with outputs declared up front: the declaration completes the FuncDefn, the Output node of the
+            # body is still untyped as long as set_outputs was never called)
             if st.get("declared") is not None:
-                self.skipped = "declared outputs complete the op"
-                return False
+                COUNT["unfinished-function-with-declared-outputs"] = COUNT.get(
+                    "unfinished-function-with-declared-outputs", 0) + 1
             self.injected = True
             raise Stop(fb.hugr)
 
@@ -575,8 +577,8 @@ def run(ctx):
                 ss = [s for s in ss if s[3].get("poly")]
             if kind == "declared-mismatch":
                 ss = [s for s in ss if s[3].get("declared")]
-            if kind == "func-no-outputs-serialize":
-                ss = [s for s in ss if not s[3].get("declared")]
+            # (func-no-outputs-serialize: also functions whose outputs were declared up front — their Output node is
+            # still untyped when set_outputs was never called)
             if kind == "foreign-wire-cfg":
                 ss = [s for s in ss if s[3].get("in_block")]
             if kind in ("case-outputs-disagree",):
